@@ -32,6 +32,7 @@ def vacuity_canary(job):
     c = copy.copy(job.contract)
     c.ensures = ["1==0"]
     c.asserts = {}
+    c.required_asserts = []
     c.name = job.contract.name + "#vacuity-canary"
     c.checks = set()
     j = Job(job.module, job.func, c, lang=job.lang, expect="refuted", tag=c.name)
@@ -44,6 +45,7 @@ def bounds_canary(job, drop=("shape(", "extent(")):
     c = copy.copy(job.contract)
     c.requires = [r for r in c.requires if not any(d in r for d in drop)]
     c.ensures, c.asserts, c.loops = [], {}, {}
+    c.required_asserts = []
     c.name = job.contract.name + "#bounds-canary"
     c.checks = {"bounds"}
     return Job(job.module, job.func, c, lang=job.lang, expect="refuted", tag=c.name)
